@@ -296,6 +296,29 @@ fn random_decimals(l: Lay, rng: &mut Rng, count: usize) -> Vec<Vec<u8>> {
     out
 }
 
+/// decimal literals with the integer part at the range edges 2^e - 1, 2^e, 2^e + 1 (e = integer bits, and one less: the signed edge),
+/// both signs (negative literals into unsigned types included), tails around one half
+fn decimal_edges(l: Lay) -> Vec<Vec<u8>> {
+    let ib = l.w - l.f;
+    let mut out = vec![];
+    for e in [ib, ib.saturating_sub(1)] {
+        if e > 126 { continue; }
+        let p = 1u128 << e;
+        for v in [p.wrapping_sub(1), p, p + 1] {
+            for neg in [false, true] {
+                for tail in [&b""[..], &b".0"[..], &b".5"[..], &b".4999999999999999999999999999999999999999999"[..], &b".50000000000000000000000000000000000000000001"[..]] {
+                    let mut x = vec![];
+                    if neg { x.push(b'-'); }
+                    x.extend_from_slice(format!("{}", if e == 0 && v == u128::MAX { 0 } else { v }).as_bytes());
+                    x.extend_from_slice(tail);
+                    out.push(x);
+                }
+            }
+        }
+    }
+    out
+}
+
 const MALFORMED: &[&[u8]] = &[b"", b"+", b"-", b".", b"+.", b"-.", b"1..2", b"1.2.3", b"..", b"1-", b"1+", b"+-1", b"--1", b"-+1", b"1 ", b" 1",
     b"1_0", b"0x10", b"1e5", b"1.5e3", b"inf", b"NaN", b"\x00", b"1\x00", b"\t1", b"1\n", b"1,5", b"0b1", b"1.5f", b"a", b"g", b"1.g", b"1.-5", b"1.+5",
     "\u{0661}".as_bytes(), "1\u{00a0}".as_bytes(), "\u{ff11}".as_bytes(), "1.\u{0665}".as_bytes(), "\u{2212}1".as_bytes(), "1\u{2024}5".as_bytes(),
@@ -318,6 +341,8 @@ fn run_parse<F: Fx>(c: &mut Ctx) {
         for s in random_decimals(l, &mut rng, n) { ev_parse::<F>(c, 10, &s); }
     }
     if c.on("radix") {
+        let de = decimal_edges(l);
+        for s in de.iter().step_by(if c.light { 7 } else { 1 }) { ev_parse::<F>(c, 10, s); }
         for rx in [2u32, 8, 16] {
             let lits = radix_literals(l, rx, &mut rng, if c.thorough() { 60 } else { 3 });
             let step = if c.light { 9 } else { 1 };
@@ -592,12 +617,13 @@ fn main() {
         // sweep: every one of the 506 layouts, lightly
         for_all_layouts!(runs!(&mut c; run;));
     } else {
+        let on = |w: u32| o.widths.is_empty() || o.widths.contains(&w);
         runs!(&mut c; run_tokens; I4F4 U8F8);
-        for_w8!(runs!(&mut c; run;));
-        for_w16!(runs!(&mut c; run;));
-        for_w32!(runs!(&mut c; run;));
-        for_w64!(runs!(&mut c; run;));
-        for_w128!(runs!(&mut c; run;));
+        if on(8) { for_w8!(runs!(&mut c; run;)); }
+        if on(16) { for_w16!(runs!(&mut c; run;)); }
+        if on(32) { for_w32!(runs!(&mut c; run;)); }
+        if on(64) { for_w64!(runs!(&mut c; run;)); }
+        if on(128) { for_w128!(runs!(&mut c; run;)); }
     }
     c.wr.flush();
 }
